@@ -568,6 +568,19 @@ pub(crate) fn unlink<P: ?Sized + NixPath>(f: &P) -> nix::Result<()> {
     }
 }
 
+/// Delete the temporary output at path `f` if it currently exists.
+///
+/// A script may create `$3` as a directory (`mkdir "$3"`); a left-over one
+/// (failed or killed build) has to go just like a left-over file.
+pub(crate) fn remove_tmp_output<P: AsRef<Path>>(f: P) -> std::io::Result<()> {
+    let f = f.as_ref();
+    match unlink(f) {
+        Ok(()) => Ok(()),
+        Err(Errno::EISDIR) | Err(Errno::EPERM) if f.is_dir() => std::fs::remove_dir_all(f),
+        Err(e) => Err(std::io::Error::from(e)),
+    }
+}
+
 /// Make a path absolute if it isn't already.
 pub fn abs_path<'p, 'q, P, Q>(cwd: &'p P, path: &'q Q) -> Cow<'q, Path>
 where
